@@ -243,8 +243,19 @@ def run_job(job):
                 + order_args(w, order, workdir)
             env = {"WILD_FILES_PER_GROUP": str(fpg) if fpg else None}
             plan = Plan(pseed, strategy, log_level=1)
+            if job.get("decisions") is not None:
+                dpath = os.path.join(workdir, f"decisions_in_{s}.txt")
+                with open(dpath, "w") as fh:
+                    fh.write("\n".join(str(x) for x in job["decisions"]) + "\n")
+                plan = Plan(pseed, "replay", log_level=1, decisions_in=dpath)
             r = sim_link(argv, workdir, plan, tag=f"s{s}", env_extra=env)
             check_sim_health(r, f"arch job {index} schedule {s}")
+            if job.get("want_decisions"):
+                try:
+                    with open(r.decisions_path) as fh:
+                        res["decisions"] = [int(x) for x in fh.read().split()]
+                except FileNotFoundError:
+                    res["decisions"] = []
             res["runs"] += 1
             res.setdefault("trace", []).append((s, r.status, r.steps, r.trace_hash))
             res["steps"] += r.steps
